@@ -55,6 +55,25 @@ func main() {
 		line := "T " + syn + " | " + smlcase.Hex([]byte(a)) + " " + smlcase.Hex([]byte(b))
 		c.Case(line, syn, true)
 		c.Count(origin + "/" + smlcase.Kind(it))
+		walk(it, func(x secs2.Item) { // which rune classes the quoted / raw-quoted texts carry
+			var txt, tag string
+			switch {
+			case x.IsLocalizedStr():
+				txt, _ = x.ToLocalizedStr()
+				tag = "W"
+			case x.IsJIS8():
+				txt, _ = x.ToJIS8()
+				tag = "J"
+			case x.IsASCII():
+				txt, _ = x.ToASCII()
+				tag = "A"
+			default:
+				return
+			}
+			for _, cl := range smlcase.StringClasses(txt) {
+				c.Count("runes/" + tag + "/" + cl)
+			}
+		})
 		if a != b {
 			c.Fail("sml.Encode(item) differs from item.ToSML()", line)
 		}
@@ -244,6 +263,16 @@ func main() {
 	}
 	for _, it := range corpus {
 		one(it, "corpus")
+	}
+	// every class of rune strconv's quoting tells apart (and every boundary of its tables), in
+	// localized items — quoted with %q / strconv.Quote — and in ASCII / JIS-8 items (raw-quoted)
+	for i, s := range smlcase.QuoteCorpus() {
+		one(secs2.NewLocalizedStrItem(uint16(i%16), s), "quote-corpus")
+		one(secs2.NewASCIIItem(s), "quote-corpus")
+		one(secs2.NewJIS8Item(s), "quote-corpus")
+		if i%7 == 0 {
+			one(secs2.NewListItem(secs2.NewUTF8StrItem(s), secs2.NewListItem(secs2.NewJIS8Item(s), secs2.NewUTF8StrItem(s+s))), "quote-corpus")
+		}
 	}
 	// sizes around the powers the size text and the storage could care about; wide and deep lists
 	for _, n := range []int{9, 10, 11, 99, 100, 255, 256, 257, 1000, 65535, 65536} {
